@@ -27,7 +27,7 @@ def nontrivial(ops, tags):
 
 
 def gen(rng, tier):
-    n = 400 if tier == "quick" else 6000
+    n = 400 if tier == "quick" else 30000
     cases = []
     for k in range(n):
         seed = rng.randrange(1, 10**9)
